@@ -1,6 +1,7 @@
 package worlds
 
 import (
+	"bytes"
 	"crypto/ecdsa"
 	"crypto/elliptic"
 	"crypto/rand"
@@ -193,19 +194,24 @@ type TLSClient struct {
 	// plaintext phase
 	PlainP *wire.Parser
 	// TLS phase
-	cfg     *tls.Config
-	tc      *tls.Conn
-	cmds    chan func()
-	mu      sync.Mutex
-	P       *wire.Parser // responses read inside TLS (or plaintext when NoTLS)
-	HSDone  bool
-	HSErr   error
-	State   tls.ConnectionState
-	EOF     bool
-	RdErr   error
-	NoTLS   bool // speak plain HTTP inside the tunnel
-	closed  bool
-	started bool
+	cfg         *tls.Config
+	tc          *tls.Conn
+	cmds        chan func()
+	mu          sync.Mutex
+	P           *wire.Parser // responses read inside TLS (or plaintext when NoTLS)
+	HSDone      bool
+	HSErr       error
+	State       tls.ConnectionState
+	EOF         bool
+	RdErr       error
+	NoTLS       bool // speak plain HTTP inside the tunnel
+	closed      bool
+	started     bool
+	connects    int
+	outerFailed bool
+	// OuterCfg, when set, makes Start treat the tunnel opened with SendConnect as an outer one (see Start).
+	OuterCfg     *tls.Config
+	InnerConnect string
 }
 
 // NewTLSClient connects to the proxy listener.
@@ -217,13 +223,23 @@ func NewTLSClient(k *kernel.K, l *simnet.Listener, name, from string, cfg *tls.C
 
 // SendConnect writes the CONNECT request in plaintext; the response is parsed by PlainP.
 func (c *TLSClient) SendConnect(authority string, extra string) {
+	if c.connects > 0 {
+		// a CONNECT inside the tunnel just opened: its answer is parsed afresh (the parser of the
+		// previous answer is in tunnel mode)
+		c.outerFailed = c.outerFailed || !c.Connected()
+		c.PlainP = wire.NewRespParser()
+	}
 	c.PlainP.Expect("CONNECT")
+	c.connects++
 	c.C.OnData(func(b []byte) { c.PlainP.Feed(b) }, func() { c.PlainP.End(); c.mu.Lock(); c.EOF = true; c.mu.Unlock() }, func() { c.mu.Lock(); c.EOF = true; c.mu.Unlock() })
 	c.C.Inject([]byte(fmt.Sprintf("CONNECT %s HTTP/1.1\r\nHost: %s\r\n%s\r\n", authority, authority, extra)))
 }
 
 // Connected reports whether the CONNECT was answered with a 2xx.
 func (c *TLSClient) Connected() bool {
+	if c.outerFailed {
+		return false
+	}
 	return len(c.PlainP.Msgs) > 0 && c.PlainP.Msgs[0].Status/100 == 2
 }
 
@@ -238,6 +254,35 @@ func (c *TLSClient) Start() {
 	c.C.OnData(nil, nil, nil)
 	var rw net.Conn = c.C
 	go func() {
+		if c.OuterCfg != nil {
+			// the tunnel just opened is an outer one: TLS with its authority, then a CONNECT to the
+			// inner authority through it; everything after that happens inside the inner tunnel
+			otc := tls.Client(rw, c.OuterCfg)
+			err := otc.Handshake()
+			var head []byte
+			if err == nil {
+				_, err = otc.Write([]byte(fmt.Sprintf("CONNECT %s HTTP/1.1\r\nHost: %s\r\n\r\n", c.InnerConnect, c.InnerConnect)))
+			}
+			one := make([]byte, 1)
+			for err == nil && !bytes.HasSuffix(head, []byte("\r\n\r\n")) {
+				if _, err = otc.Read(one); err == nil {
+					head = append(head, one[0])
+				}
+			}
+			if err == nil && !bytes.HasPrefix(head, []byte("HTTP/1.1 200")) {
+				err = fmt.Errorf("inner CONNECT answered with %q", head)
+			}
+			if err != nil {
+				c.mu.Lock()
+				c.HSDone, c.HSErr = true, fmt.Errorf("outer tunnel: %w", err)
+				c.mu.Unlock()
+				return
+			}
+			rw = otc
+			if c.NoTLS {
+				c.tc = otc // (what the client writes goes through the outer TLS session)
+			}
+		}
 		if !c.NoTLS {
 			c.tc = tls.Client(rw, c.cfg)
 			err := c.tc.Handshake()
